@@ -8,6 +8,25 @@ ALL = [f"C{i:02d}" for i in range(1, 21)]
 
 # id -> (technique, level text, level note, design ref)
 CHECKS = {
+    "C10": (
+        "exhaustive product enumeration unit system x unit x entry point on the real code with an oracle typed from the "
+        "statement, plus explicit-state BFS over histories of conversions / dimension requests / declarations per unit system "
+        "(state = canonical units_map) with a cold-world differential in every state",
+        "13 unit systems (7 built-in; 6 generated: prefixed base units, quantity-valued base units, non-SI temperature and angle "
+        "bases, no current unit, overrides for energy/pressure/velocity, a registry-bound code-unit system) x every atomic unit "
+        "of the table x {none, k, u} prefixes x all products and quotients of a 12-atom (25 in thorough) alphabet x operands in "
+        "the default and in a custom registry (code units, re-defined Msun): in_base either raises UnitsNotReducible or returns "
+        "a quantity whose unit uses only symbols of the system's base units or of units it declares by name, is the monomial of "
+        "the base units for undeclared dimensions, denotes the same physical quantity (or the independently typed CGS/SI "
+        "electromagnetic counterpart factor), converts back by Unit and by unit name, equals get_base_equivalent, is idempotent, "
+        "and equals convert_to_base / in_cgs / in_mks / convert_to_cgs / convert_to_mks. Every base slot given each of 10 wrong "
+        "units must raise IllDefinedUnitSystem. BFS (depth 3, 2 declarations quick; 4/3 thorough) over 16 events on a fresh user "
+        "system, galactic and cgs: in every distinct units_map state the 12-probe battery equals that of a cold world which only "
+        "received the declarations (probes asked in reverse order).",
+        "Trusted base: the EM counterpart factor table typed from the Gaussian definitions; allowed symbols are read from "
+        "S.base_units and the names S declared (S._dims), never from memoised rows.",
+        "DESIGN.md section 6 C10",
+    ),
     "C18": (
         "bounded exhaustive enumeration with a deviation bound on injected invalid operands (0 and 1, each operand position "
         "in turn) over conversion routes, all ufuncs x call forms, methods with out=, in-place equivalence chains, item "
